@@ -538,6 +538,7 @@ func vtinyCorpora(o *vout, r *vrand) int {
 	type td struct{ cat, name, variant, text string }
 	docs := []td{
 		{"License", "Tiny4", "a.txt", mk(0, 4)}, {"License", "Tiny9", "", mk(2, 9)}, {"", "known", "", mk(1, 6)},
+		{"License", ".", "dot.txt", "uniform victor whiskey xray yankee"}, {"Header", "Dotted", ".", "zulu alfa beta gamma deltax"},
 		{"License", "Tiny1", "x", mk(12, 1)}, {"License", "Tiny12", "v.txt", mk(0, 12)}, {"License", "Empty", "e", ""},
 		{"Header", "Tiny5", "h.txt", mk(7, 5)}, {"License", "Rep", "r", "alpha alpha alpha alpha alpha bravo alpha alpha"},
 		// words that decode to the dictionary's placeholder for unknown ids: q-grams of out-of-vocabulary
@@ -557,6 +558,21 @@ func vtinyCorpora(o *vout, r *vrand) int {
 			c.AddContent(d.cat, d.name, d.variant, []byte(d.text))
 		}
 		cid := fmt.Sprintf("tiny%d", ti)
+		// every (category, name, variant) that was added must come back out of its corpus key
+		keyBad := ""
+		for _, d := range docs {
+			k := c.generateDocName(d.cat, d.name, d.variant)
+			var ty, nm, va string
+			if pan, msg := catch(func() { ty, nm, va = detectionType(k), LicenseName(k), variantName(k) }); pan {
+				keyBad = fmt.Sprintf("the key %q of (%q, %q, %q) cannot be taken apart: %s", k, d.cat, d.name, d.variant, msg)
+			} else if ty != d.cat || nm != d.name || va != d.variant {
+				keyBad = fmt.Sprintf("the key %q of (%q, %q, %q) reads back as (%q, %q, %q)", k, d.cat, d.name, d.variant, ty, nm, va)
+			}
+		}
+		o.verdict("C03", cid+"_keys", keyBad == "", true, cid+"_keys", map[string]interface{}{"what": keyBad, "threshold": th})
+		if keyBad != "" {
+			continue
+		}
 		keys := vcorpusRecord(o, cid, c)
 		var inputs []string
 		for _, d := range docs {
@@ -597,6 +613,8 @@ func vtinyCorpora(o *vout, r *vrand) int {
 			info := vmatchCase(o, c, cid, keys, id, []byte(in), true)
 			n++
 			if info.panicked {
+				// no result at all: the (MatchType, Name, Variant) of a match could not be produced
+				o.verdict("C03", id, false, true, fmt.Sprintf("tiny:%v:%s", th, in), map[string]interface{}{"what": "Match panicked: " + info.pmsg, "threshold": th, "input": in})
 				continue
 			}
 			if th > 0 {
